@@ -128,7 +128,7 @@ class Construct(Lane):
 
 def body(chk):
     quick = chk.tier == 'quick'
-    p = (2, 2, [0, 2, 3], 2) if quick else tier_param('C15', (2, 3, [0, 1, 2, 3, 4], 3))
+    p = (2, 2, [0, 2, 3], 2) if quick else tier_param('C15', (2, 2, [0, 1, 2, 3, 4], 3))
     run_lane(chk, Construct, p, bounds={'attributes': f'<= {p[0]} (pairwise distinct names)', 'values per attribute': f'0..{p[1]}', 'value lengths': p[2], 'dn bytes': f'<= {p[3]}',
                                         'value bytes': 'fully symbolic: every valid/invalid UTF-8 pattern in every order'}, need_regions=('text', 'binary', 'no-values'))
     chk.assumptions += [
